@@ -80,6 +80,20 @@ example : Idx.readTabix ([84, 66, 73, 1, 0, 0, 0, 0] ++ [2, 0, 0, 0, 1, 0, 0, 0,
     .ok (⟨some ⟨.vcf, 0, 1, none, 35, 0, [[97]]⟩, [], none⟩, []) := by decide
 example : Idx.readCsi (csiDepth11.set 8 5) = .ok (⟨14, 5, none, [⟨[], [], none⟩], none⟩, []) := by decide
 
+/-- the readers as they are since /repo `fix:` 125ecd7 and 8288cb5 (the model follows the code):
+a tabix names block cut short by the end of the input (`l_nm = 3`, then only `a NUL`) is an error —
+`UnexpectedEof`, re-wrapped by `read_index` —, the header reader alone reports `UnexpectedEof`; a CSI
+`aux` block of `l_aux = 34` = a 30-byte header + 4 bytes of padding is skipped in full: `n_ref = 0` and
+`n_no_coor = 5` are read from behind the padding -/
+example : Idx.readTabix ([84, 66, 73, 1, 0, 0, 0, 0] ++ [2, 0, 0, 0, 1, 0, 0, 0, 2, 0, 0, 0, 0, 0, 0, 0,
+    35, 0, 0, 0, 0, 0, 0, 0, 3, 0, 0, 0, 97, 0]) = .err .invalidData := by decide
+example : Idx.readHeader [2, 0, 0, 0, 1, 0, 0, 0, 2, 0, 0, 0, 0, 0, 0, 0,
+    35, 0, 0, 0, 0, 0, 0, 0, 3, 0, 0, 0, 97, 0] = .err .eof := by decide
+example : Idx.readCsi ([67, 83, 73, 1, 14, 0, 0, 0, 5, 0, 0, 0, 34, 0, 0, 0] ++
+    [2, 0, 0, 0, 1, 0, 0, 0, 2, 0, 0, 0, 0, 0, 0, 0, 35, 0, 0, 0, 0, 0, 0, 0, 2, 0, 0, 0, 97, 0] ++
+    [9, 9, 9, 9] ++ [0, 0, 0, 0, 5, 0, 0, 0, 0, 0, 0, 0]) =
+    .ok (⟨14, 5, some ⟨.vcf, 0, 1, none, 35, 0, [[97]]⟩, [], some 5⟩, []) := by decide
+
 /-! ## BAM header -/
 
 /-- `bam::io::Reader::read_header` on ANY byte string, for ANY behaviour of the SAM header parser -/
